@@ -459,10 +459,10 @@ fn exhaustive(ctx: &mut Ctx) {
                     if len == 2 && pi != 3 && pi != 5 && pi != 0 {
                         continue;
                     }
-                    cases.push(Case { syms: syms.clone(), style: (idx % 4) as u8, payload: p.clone(), cuts: vec![] });
+                    cases.push(Case { syms: syms.clone(), style: (idx % 5) as u8, payload: p.clone(), cuts: vec![] });
                 }
             } else {
-                cases.push(Case { syms: syms.clone(), style: (idx % 4) as u8, payload: vec![], cuts: vec![] });
+                cases.push(Case { syms: syms.clone(), style: (idx % 5) as u8, payload: vec![], cuts: vec![] });
                 if len == 1 {
                     cases.push(Case {
                         syms: syms.clone(),
@@ -502,7 +502,7 @@ pub fn case_strategy(max_msgs: usize) -> impl Strategy<Value = Case> {
     let m = no_up.len();
     (
         prop::collection::vec((0..n, 0..m), 1..=max_msgs),
-        0u8..4,
+        0u8..5,
         0u8..10,
         prop::collection::vec(any::<u8>(), 0..300),
         prop::collection::vec(any::<prop::sample::Index>(), 0..=12),
